@@ -199,6 +199,45 @@ func (e *Effects) direct(key string, fd *ast.FuncDecl) *FuncEffects {
 			i++
 		}
 	}
+	// local aliases of slice/pointer parameters (flow-insensitive): x := p, x := p[a:b], x = p
+	for pass := 0; pass < 3; pass++ {
+		ast.Inspect(fd.Body, func(n ast.Node) bool {
+			as, ok := n.(*ast.AssignStmt)
+			if !ok || len(as.Lhs) != len(as.Rhs) {
+				return true
+			}
+			for i, l := range as.Lhs {
+				lid, ok := l.(*ast.Ident)
+				if !ok {
+					continue
+				}
+				lobj := info.Defs[lid]
+				if lobj == nil {
+					lobj = info.Uses[lid]
+				}
+				if lobj == nil {
+					continue
+				}
+				switch lobj.Type().Underlying().(type) {
+				case *types.Slice, *types.Pointer:
+				default:
+					continue
+				}
+				r := ast.Unparen(as.Rhs[i])
+				if se, ok := r.(*ast.SliceExpr); ok {
+					r = ast.Unparen(se.X)
+				}
+				if rid, ok := r.(*ast.Ident); ok {
+					if pi, ok := fe.paramObjs[info.Uses[rid]]; ok {
+						if _, already := fe.paramObjs[lobj]; !already {
+							fe.paramObjs[lobj] = pi
+						}
+					}
+				}
+			}
+			return true
+		})
+	}
 	ast.Inspect(fd.Body, func(n ast.Node) bool {
 		switch x := n.(type) {
 		case *ast.FuncLit:
